@@ -39,7 +39,10 @@ fn main() {
             graphs::exhaustive_slice(count as u32, lo, hi, &mut emit);
         }
         "graph-random" => graphs::random(&mut rng, count, &mut emit),
-        "expr" => streams::expr(&mut rng, count, &mut emit),
+        "expr" => streams::expr(&mut rng, count, false, &mut emit),
+        "expr-mutated" => streams::expr(&mut rng, count, true, &mut emit),
+        "prog-fault" => streams::prog_faulty(&mut rng, count, "fault", &mut emit),
+        "prog-loop" => streams::prog_faulty(&mut rng, count, "loop", &mut emit),
         "prog" => streams::prog(&mut rng, count, extra.get(0).map(|s| s.as_str()).unwrap_or("dag"), &mut emit),
         _ => { eprintln!("unknown stream {}", stream); std::process::exit(2); }
     }
